@@ -71,7 +71,42 @@ class Discharger:
             for f in self.stats_square_fields():
                 M = ("field", me, f)
                 out.append(("Eq", ("nrows", M), ("ncols", M)))
+            # more observations than parameters: every FitStatistics value is built under N > M+P (R-DOF-GUARD's
+            # success-needs-N>M+P), its residuals have N rows and its covariance M+P (shapes of the constructor's values)
+            for (rf, cf) in self.stats_more_rows_than_params():
+                Rv, Cv = ("field", me, rf), ("field", me, cf)
+                out.append(("Lt", ("nrows", Cv), ("nrows", Rv)))
+                out.append(("Lt", ("ncols", Cv), ("nrows", Rv)))
         return out
+
+    def stats_more_rows_than_params(self):
+        if "gt" not in self.inv_cache:
+            self.inv_cache["gt"] = []
+            try:
+                from shapes import S_, B_, P_, ONE, dadd
+                from rules_stats2 import ctor_fields, stats_roles, stats_field_shapes
+                from rules_stats import match_dof
+                F, ev = self.F, self.ev
+                sr = stats_roles(F, ev)
+                shapes_, model = stats_field_shapes(F, ev, sr)
+                b, env, f, s, sbi = ctor_fields(F, ev)
+                # the constructor's aggregate is dominated by N > M+P
+                g = Guards(ev, b, env)
+                rels, raw = g.relations_at(sbi)
+                guarded = False
+                for r in rels:
+                    if r[0] == "Lt":
+                        md = match_dof(("bin", "Sub", r[2], r[1]))
+                        if md is not None:
+                            guarded = True
+                if guarded and model is not None:
+                    Sd, tot = ("sym", S_, model), dadd(("sym", B_, model), ("sym", P_, model))
+                    rf, cf = sr["wres"], sr["cov"]
+                    if shapes_.get(rf) and shapes_.get(cf) and shapes_[rf][0] == Sd and shapes_[rf][1] == ONE and shapes_[cf][0] == tot and shapes_[cf][1] == tot:
+                        self.inv_cache["gt"].append((rf, cf))
+            except Exception:
+                pass
+        return self.inv_cache["gt"]
 
     def stats_square_fields(self):
         if "sq" not in self.inv_cache:
